@@ -44,9 +44,9 @@ def main():
     fresh()
     rc0, _ = sh("git apply --check --whitespace=nowarn %s" % os.path.join(seed, "patch.diff"), cwd=scratch)
     meta["evaluated_on"] = "current /repo"
-    if rc0 != 0:
+    if rc0 != 0 or "--base" in sys.argv:
         fresh(base)
-        meta["evaluated_on"] = "base commit %s (patch no longer applies to the current tree)" % base
+        meta["evaluated_on"] = "base commit %s (patch no longer applies to the current tree, or the later fixes removed the path it needs)" % base
     log = {}
     demo_go = os.path.join(seed, "demo_test.go")
     demo_sh = os.path.join(seed, "demo.sh")
